@@ -283,6 +283,27 @@ fn forever() -> Goal<U, E> {
     // (the body is a one-goal conjunction, as the closure macro builds it: each unfolding pauses once)
     Closure::new(ClosureOperatorParam::new(Box::new(|| Conj::from_array(&[forever()])))).cast_into()
 }
+// silent divergers written with the closure MACRO (what a user writes): the macro wraps the body so that every
+// unfolding pauses once; a body that is a bare recursive call is the sensitive case
+fn nevero_macro() -> Goal<U, E> {
+    use proto_vulcan::prelude::*;
+    proto_vulcan_closure!(nevero_macro())
+}
+/// scenarios that can take the whole process down (stack overflow) run in a child process: `pv-replay replay search "child <name>"`
+fn child_scenario(name: &str) -> Result<(), String> {
+    use proto_vulcan::prelude::*;
+    let run = |g: fn(&[T]) -> Goal<U, E>, n: usize, want: &str| -> Result<(), String> {
+        let got = prefix(g, n);
+        if got.len() == n && got.iter().all(|a| a[0] == want) { Ok(()) } else { Err(format!("prefix {:?}", got.iter().map(|a| a[0].clone()).collect::<Vec<_>>())) }
+    };
+    match name {
+        "conde{nevero_macro(),x0=1}" => run(|v| { let x0 = v[0].clone(); proto_vulcan!(conde { nevero_macro(), x0 == 1 }) }, 1, "1"),
+        "conde{x0=1,nevero_macro()}" => run(|v| { let x0 = v[0].clone(); proto_vulcan!(conde { x0 == 1, nevero_macro() }) }, 1, "1"),
+        "conde{nevero_macro(),[always(),x0=1]}" => run(|v| { let x0 = v[0].clone(); proto_vulcan!(conde { nevero_macro(), [always(), x0 == 1] }) }, 4, "1"),
+        _ => Err("unknown child scenario".into()),
+    }
+}
+const CHILD_SCENARIOS: [&str; 3] = ["conde{nevero_macro(),x0=1}", "conde{x0=1,nevero_macro()}", "conde{nevero_macro(),[always(),x0=1]}"];
 fn prefix(goal_of: fn(&[T]) -> Goal<U, E>, n: usize) -> Vec<Vec<String>> {
     let vars: Vec<T> = vec![LTerm::var("x0"), LTerm::var("x1"), LTerm::var("x2")];
     let goal = goal_of(&vars);
@@ -312,6 +333,21 @@ fn fairness(rep: &mut Report) {
         ("loop{conde{x0=1, x0=2}}", |v| lp(vec![cde(vec![vec![eqk(v, 0, 1)], vec![eqk(v, 0, 2)]])]), 12, vec![("1", 3), ("2", 3)]),
         ("conde{loop{x0=1}, loop{x0=2}, forever()}", |v| cde(vec![vec![lp(vec![eqk(v, 0, 1)])], vec![lp(vec![eqk(v, 0, 2)])], vec![forever()]]), 16, vec![("1", 3), ("2", 3)]),
     ];
+    // macro-written recursion, each in a child process (a stack overflow there is a finding, not the end of this run)
+    for name in CHILD_SCENARIOS.iter() {
+        rep.case("fairness", format!("fair {}", name));
+        let exe = std::env::current_exe().unwrap();
+        let mut child = std::process::Command::new(exe).args(["replay", "search", &format!("child {}", name)]).stdout(std::process::Stdio::piped()).stderr(std::process::Stdio::null()).spawn().unwrap();
+        let t0 = std::time::Instant::now();
+        let status = loop {
+            match child.try_wait().unwrap() { Some(st) => break Some(st), None => { if t0.elapsed().as_secs() > 20 { let _ = child.kill(); break None; } std::thread::sleep(std::time::Duration::from_millis(20)); } }
+        };
+        match status {
+            Some(st) if st.success() => {}
+            Some(st) => rep.fail("fairness", name.to_string(), "the answers of the other branch within the prefix".into(), format!("child process ended abnormally ({}): stack overflow / wrong prefix", st), "starved"),
+            None => rep.fail("fairness", name.to_string(), "the answers of the other branch within 20 s".into(), "no result: a branch is starved".into(), "starved"),
+        }
+    }
     // loop { g1, g2 }: the body is the CONJUNCTION of its goals (C06: every answer produced is an answer of the program)
     {
         let name = "loop{conde{x0=1,x0=2}, x0!=1}";
@@ -488,6 +524,9 @@ impl<'a> P<'a> {
 }
 
 pub fn replay(input: &str) {
+    if let Some(name) = input.strip_prefix("child ") {
+        match child_scenario(name) { Ok(()) => std::process::exit(0), Err(e) => { println!("{}", e); std::process::exit(3) } }
+    }
     // input: "<check name> <program text>"
     let body = input.splitn(2, ' ').nth(1).unwrap_or(input);
     let g = P { s: body.as_bytes(), i: 0 }.goal();
